@@ -133,8 +133,8 @@ def close_pt(a, b, tol):
     return abs(a[0] - b[0]) <= tol and abs(a[1] - b[1]) <= tol
 
 
-def seg_scale(rseg):
-    m = 1.0
+def seg_scale(rseg, floor=1.0):
+    m = floor
     for p in (rseg.start, rseg.end, rseg.c1, rseg.c2):
         if p is not None:
             m = max(m, abs(p[0]), abs(p[1]))
@@ -208,10 +208,11 @@ def compare_path(ipath_segments, rsegs, out, what, tags=None, rel=1e-12, arc_geo
         return n
     prev_end = None
     sub_start = None
-    hist = 1.0
+    # the largest coordinate magnitude met so far; no floor of 1: a drawing of magnitude 1e-7 is compared to 1e-19
+    hist = 1e-300
     for idx, (iseg, rseg) in enumerate(zip(ipath_segments, rsegs)):
         n += 1
-        hist = max(hist, seg_scale(rseg))
+        hist = max(hist, seg_scale(rseg, 1e-300))
         if arc_degenerate(rseg):
             prev_end = pt(iseg.end)
             continue
